@@ -1524,7 +1524,7 @@ fn main() {
         let step = if thorough { 3 } else { 5 };
         let mut k = 0usize;
         for (i, case) in cases.iter().enumerate().take(first_shape) {
-            if i % step != 3 {
+            if i % step != step / 2 + 1 {
                 continue;
             }
             let bytes = match build(case) {
